@@ -1,18 +1,18 @@
 SPECIFICATION Spec
 CONSTANTS
-  Forms <- AllForms
-  Indents <- Ind02
-  MaxIdAnns = 2
-  MaxParams = 2
-  MaxParamAnns = 2
+  Forms <- OneForm
+  Indents <- Ind012
+  MaxIdAnns = 0
+  MaxParams = 0
+  MaxParamAnns = 0
   MaxPartLines = 1
-  MaxDescLines = 1
-  MaxParas = 1
-  MaxTags = 0
+  MaxDescLines = 2
+  MaxParas = 2
+  MaxTags = 1
   TagNames <- TagsR
   MaxTagAnns = 0
-  MaxCont = 2
-  MaxNoise = 0
+  MaxCont = 1
+  MaxNoise = 1
   AtReturns = FALSE
   FaultKinds <- NoFaults
   MaxFaults = 0
